@@ -1,6 +1,7 @@
 import GqlVerif.Props.C11
 import GqlVerif.Props.C13
 import GqlVerif.Model.Serde
+import GqlVerif.Proofs.C01Layers
 /-!
 # C04 — variables serialize to exactly the operation's declared variables, validly typed
 
@@ -17,7 +18,10 @@ import GqlVerif.Model.Serde
   member's GraphQL name;
 * `unit_variables_null` — an operation without variables sends `null`.
 
-The whole-struct statements (`ser_keys_exact` …) are in `GqlVerif/Proofs/C01Layers.lean` when proved.
+Whole-struct statements, proved in `GqlVerif/Proofs/C01Layers.lean` (namespace `C01`, audited with this file):
+`ser_fields_iff`, `ser_keys_exact` (keys = wire names of the non-skipped members, in order),
+`ser_keys_nodup`, `ser_keys_all`, `oneof_keys`, `ser_conforms` (what is written is admitted by the
+declared type expression: a non-null position is never written as null, at any depth).
 -/
 namespace GqlVerif
 namespace C04
